@@ -3,6 +3,26 @@
 import json, os
 VERIF = os.path.normpath(os.path.join(os.path.dirname(os.path.abspath(__file__)), ".."))
 CLAIMED = {
+ "C08": dict(
+   text="Machine-checked proof (Coq), for every number domain and every data set, about the state-machine model of the inventory operations: + and - are the nuclide-wise sum/difference and nothing else changes, * and / act pointwise, remove is the restriction, "
+        "absent nuclides / non-nuclide keys are refused, the constructor keeps one entry per supplied key and refuses two spellings of one nuclide, a raising mutating call leaves the state unchanged, and alphabetical order is an invariant of operation sequences of any length (induction over the op list). "
+        "Operation-sequence correspondence against the implementation after every step: float bits (PrimFloat) and exact rationals with their SymPy type (BigQ).",
+   note="Trusted: Coq kernel; no axioms; translators for parse_nuclide and _convert_to_number; the operators' control flow is hand-modelled (tie: recorded source text + correspondence). Four genuine defects found and repaired by fix: commits (see known_findings.json).",
+   technique="Coq proof (refinement of the operation state machine to a finite-map spec, invariant by induction) + op-sequence correspondence",
+   ref="DESIGN.md section 4 C08"),
+ "C09": dict(
+   text="Machine-checked proof (Coq) about the parse functions regenerated from utils.py/nuclide.py on every run: every documented spelling (4 forms, any letter case element-first, arbitrary Unicode whitespace) of every element x every digit string 1..300 x every state parses to El-A[s] "
+        "(mass number universally quantified, elements/states by kernel enumeration), canonical names are fixed points, ids round-trip, Z/A/state/id agree with the name. Three-way correspondence (extracted model, implementation, expected) over the quantifier's family.",
+   note="Trusted: Coq kernel (closed under the global context: no axioms); translator tr_pure/pytr + Unicode tables from the running CPython; Lib/Py.v as model of str/int/list (validated by its own stream); ExtrOcamlBasic extraction.",
+   technique="Coq proof about translator-generated parse functions + exhaustive three-way correspondence via extraction",
+   ref="DESIGN.md section 4 C09"),
+ "C10": dict(
+   text="Machine-checked proof (Coq) about the generated functions with exceptions as values: for EVERY string parse_nuclide_str returns a name, NuclideStrError or ValueError (never IndexError/KeyError/...); for every id in [-1e10,1e10] a name or ValueError; whatever is accepted literally contains its element, mass digits and state up to ASCII case; "
+        "parse_nuclide dispatches on type and checks membership. Amount/unit/key-type refusal at every entry point is decided by an enumerated entry-point stream on the implementation.",
+   note="Trusted: as C09; int(a/b) == truncated division for |a|<2^53 (boundary ids in the stream). Amount checks have no theorem (labelled partial). Five genuine defects repaired by fix: commits; one known finding (numpy.float32 amounts).",
+   technique="Coq proof (totality + literal-acceptance over all strings/ids) + malformed-input correspondence + entry-point enumeration",
+   ref="DESIGN.md section 4 C10"),
+
  "C05": dict(
    text="Machine-checked proof (Coq): the unit tables and converter/inventory functions are regenerated from converters.py/inventory.py on every run; theorems state that the exact tables ARE the unit definitions of the property "
         "(SI prefixes, Ci, dpm, t=ton=Mg, u=micro), the float tables agree to 1 ulp with identical keys, kinds are disjoint, and over the reals for every data set: create-then-read-back is the identity in every unit, readings in two units differ by the defined ratio, "
